@@ -210,11 +210,49 @@ pub fn history_modes(input: &[u8]) -> Vec<u8> {
     (0..3u8).filter(|&m| crate::refmodel::mode_accepts(m as usize, input) || crate::refmodel::mode_accepts(m as usize, &up)).collect()
 }
 
+pub const N_OTHER: u8 = 4;
+
+// 2 and 3: two fully automatic builds of inputs of the same length and of different character classes, each on a builder
+// that is dropped afterwards (whatever a build remembers about "the input it saw last" meets a different input of the
+// same size, possibly at the same address)
 fn other_case(i: u8) -> PCase {
     match i {
         0 => PCase { input: b"an unrelated payload, level H, version 5".to_vec(), opts: Opts { mode: None, ecl: Some(3), version: Some(5), mask: None, order: 0 }, render: Render::None },
-        _ => PCase { input: b"31415926535897932384626433832795028841971".to_vec(), opts: Opts { mode: None, ecl: Some(0), version: None, mask: Some(3), order: 0 }, render: Render::None },
+        1 => PCase { input: b"31415926535897932384626433832795028841971".to_vec(), opts: Opts { mode: None, ecl: Some(0), version: None, mask: Some(3), order: 0 }, render: Render::None },
+        2 => PCase { input: b"1234567890123456".to_vec(), opts: Opts::default(), render: Render::None },
+        _ => PCase { input: b"hello world, abc".to_vec(), opts: Opts::default(), render: Render::None },
     }
+}
+
+/// Inputs whose documented selection is a tie between two or more masks (found with R among `https://example.com/item/N`)
+/// and predecessors whose documented winners are as many different masks as possible. A selection that keeps something
+/// from the previous build (where it starts, what it compares with first) shows on the ties only.
+pub fn tie_inputs(thorough: bool) -> (Vec<Vec<u8>>, Vec<Vec<u8>>) {
+    let mut ties = vec![];
+    let mut preds: Vec<Option<Vec<u8>>> = vec![None; 8];
+    let limit = if thorough { 3000 } else { 600 };
+    let want_ties = if thorough { 24 } else { 8 };
+    for i in 0..limit {
+        let input = format!("https://example.com/item/{}", i).into_bytes();
+        let v = match crate::refmodel::min_version(2, 2, input.len()) {
+            Some(v) => v,
+            None => continue,
+        };
+        let pens = crate::props::c11::documented_penalties(&input, 2, 2, v);
+        let min = *pens.iter().min().unwrap();
+        let winners: Vec<usize> = (0..8).filter(|&k| pens[k] == min).collect();
+        if winners.len() >= 2 {
+            if ties.len() < want_ties {
+                ties.push(input);
+            }
+        } else if preds[winners[0]].is_none() {
+            preds[winners[0]] = Some(input);
+        }
+        if ties.len() >= want_ties && preds.iter().all(|p| p.is_some()) {
+            break;
+        }
+    }
+    (ties, preds.into_iter().flatten().collect())
 }
 
 fn builder_alphabet(input: &[u8]) -> Vec<BOp> {
@@ -222,7 +260,8 @@ fn builder_alphabet(input: &[u8]) -> Vec<BOp> {
     a.extend(history_modes(input).into_iter().map(BOp::Mode));
     a.extend([BOp::Ecl(0), BOp::Ecl(3), BOp::Version(1), BOp::Version(2), BOp::Version(7)]);
     a.extend((0..8u8).map(BOp::Mask));
-    a.extend([BOp::Build, BOp::Other(0), BOp::Other(1)]);
+    a.push(BOp::Build);
+    a.extend((0..N_OTHER).map(BOp::Other));
     a
 }
 
@@ -484,7 +523,7 @@ pub fn replay(case: &Value) -> Result<Vec<(String, String)>, String> {
             let seq: Vec<BOp> = case.get("sequence").and_then(|s| s.as_array()).ok_or("sequence")?.iter().map(BOp::from_json).collect::<Option<Vec<_>>>().ok_or("bad op")?;
             let input = HISTORY_INPUTS[idx];
             // pristine values for the tuples this history visits
-            let mut needed = vec![other_case(0), other_case(1)];
+            let mut needed: Vec<PCase> = (0..N_OTHER).map(other_case).collect();
             let mut m = Opts::default();
             let mut b = QRBuilder::new(input.to_vec());
             for &op in &seq {
@@ -495,6 +534,15 @@ pub fn replay(case: &Value) -> Result<Vec<(String, String)>, String> {
             needed.dedup();
             let expect = pristine_each(&needed)?;
             Ok(run_history(input, &seq, &expect, None, idx).into_iter().map(|(k, w)| (format!("C14/{}", k), w)).collect())
+        }
+        "tie-after" => {
+            let t = crate::util::unhex(case.get("input_hex").and_then(|x| x.as_str()).ok_or("input_hex")?).ok_or("hex")?;
+            let p = crate::util::unhex(case.get("previous_hex").and_then(|x| x.as_str()).ok_or("previous_hex")?).ok_or("hex")?;
+            let key = PCase { input: t.clone(), opts: Opts::default(), render: Render::None };
+            let expect = pristine_each(&[key.clone()])?;
+            let _ = subject::build(&p, &Opts::default());
+            let got = subject::outcome_digest(&subject::build(&t, &Opts::default()));
+            Ok(if expect.get(&key) != Some(&got) { vec![("C14/history-dependent-build".to_string(), "the tie input built after its predecessor differs from its pristine build".to_string())] } else { vec![] })
         }
         "schedule" => {
             let pi = case.get("program_index").and_then(|x| x.as_u64()).ok_or("program_index")? as usize;
@@ -593,7 +641,7 @@ fn judge_execution(p: &Program, results: &[Option<Vec<u64>>], expect: &HashMap<P
 
 pub fn run(ctx: &Ctx) -> Collector {
     let col = Collector::new("C14", "model_checking");
-    col.set_rule("(a) E2 builder histories: for 4 inputs (numeric, alphanumeric, bytes, lower-case text that is alphanumeric once upper-cased) ALL sequences of exactly depth D (quick 4, thorough 5; every shorter history is a prefix) over {mode(each the input or its upper-case form allows), ecl(L|H), version(1|2|7), mask(all 8), build, other1, other2} replayed on a fresh real QRBuilder; model state = option tuple; oracle at every build step: digest of (all 177x177 module bytes, size, four fields, or error kind) = digest computed by a fresh builder with the model tuple in a PRISTINE child process (one process per tuple); unrelated builds interleaved must equal their pristine values too. (b) E2 renderer histories: all sequences to depth 4 over {8 SvgBuilder setters, svg(q1|q2), term(q1|q2)} and to depth 3 (thorough 4) over {5 ImageBuilder setters, png(q1|q2)}: every render = render of a fresh renderer built from the model state, the QRCode digest is unchanged after every render, and all distinct (state, symbol) renders are recomputed in reverse order in a fresh child process. (c) E3 schedules: 7 thread programs (2-3 real threads, 1-2 operations each, incl. two threads sharing one &QRBuilder) under the controlled scheduler at the guarded scheduling points: all interleavings with <= b preemptions (iterative bounding; fine point set and coarse point set, bounds in the evidence); oracle: every thread's result = its sequential pristine result; vacuity guard: racy canary outcomes. (d) E3-fine: the same scheduler driven by function-entry events of a second build of fast_qr (opt-level 0, -Zinstrument-mcount, nightly): 5 (thorough 8) thread programs incl. terminal and SVG renders of two sizes in opposite orders; all interleavings with <= 1 preemption at the first k (quick 1, thorough 3) entries of every (function, call site) pair per operation; expectations from fresh single-threaded processes. Supplementary (sampling, not part of the verdict basis): free-running 16-thread pass. non-trivial = a build or render was observed; distinct = distinct observation digests");
+    col.set_rule("(a) E2 builder histories: for 4 inputs (numeric, alphanumeric, bytes, lower-case text that is alphanumeric once upper-cased) ALL sequences of exactly depth D (quick 4, thorough 5; every shorter history is a prefix) over {mode(each the input or its upper-case form allows), ecl(L|H), version(1|2|7), mask(all 8), build, other1..other4 (unrelated builds on builders that are dropped; 3 and 4 are fully automatic, of equal length and different character classes)} replayed on a fresh real QRBuilder; model state = option tuple; oracle at every build step: digest of (all 177x177 module bytes, size, four fields, or error kind) = digest computed by a fresh builder with the model tuple in a PRISTINE child process (one process per tuple); unrelated builds interleaved must equal their pristine values too. (b) E2 renderer histories: all sequences to depth 4 over {8 SvgBuilder setters, svg(q1|q2), term(q1|q2)} and to depth 3 (thorough 4) over {5 ImageBuilder setters, png(q1|q2)}: every render = render of a fresh renderer built from the model state, the QRCode digest is unchanged after every render, and all distinct (state, symbol) renders are recomputed in reverse order in a fresh child process. (c) E3 schedules: 7 thread programs (2-3 real threads, 1-2 operations each, incl. two threads sharing one &QRBuilder) under the controlled scheduler at the guarded scheduling points: all interleavings with <= b preemptions (iterative bounding; fine point set and coarse point set, bounds in the evidence); oracle: every thread's result = its sequential pristine result; vacuity guard: racy canary outcomes. (d) E3-fine: the same scheduler driven by function-entry events of a second build of fast_qr (opt-level 0, -Zinstrument-mcount, nightly): 5 (thorough 8) thread programs incl. terminal and SVG renders of two sizes in opposite orders; all interleavings with <= 1 preemption at the first k (quick 1, thorough 3) entries of every (function, call site) pair per operation; expectations from fresh single-threaded processes. Supplementary (sampling, not part of the verdict basis): free-running 16-thread pass. non-trivial = a build or render was observed; distinct = distinct observation digests");
     col.assume("E3 (c) preempts at the guarded scheduling points (hook H3), E3-fine (d) at function entries inside the crate (first k per function and call site): a window that contains no call at all is not split; memory-ordering effects weaker than sequential consistency are out of scope (the crate has no atomics)");
     let thorough = ctx.tier.thorough();
 
@@ -629,7 +677,11 @@ pub fn run(ctx: &Ctx) -> Collector {
     // ---- (a) builder histories
     let t0 = std::time::Instant::now();
     let depth = if thorough { 5 } else { 4 };
-    let mut needed: Vec<PCase> = vec![other_case(0), other_case(1)];
+    let mut needed: Vec<PCase> = (0..N_OTHER).map(other_case).collect();
+    let (ties, preds) = tie_inputs(thorough);
+    for t in ties.iter().chain(preds.iter()) {
+        needed.push(PCase { input: t.clone(), opts: Opts::default(), render: Render::None });
+    }
     for input in HISTORY_INPUTS {
         for mode in std::iter::once(None).chain(history_modes(input).into_iter().map(Some)) {
             for ecl in [None, Some(0), Some(3)] {
@@ -663,6 +715,22 @@ pub fn run(ctx: &Ctx) -> Collector {
             }
         }
     }
+    // (a') ties: every tie input built right after every predecessor (and after itself), nothing else running in the
+    // process: the result must be the pristine one whatever was built before
+    let mut tie_runs = 0u64;
+    for (ti, t) in ties.iter().enumerate() {
+        let key = PCase { input: t.clone(), opts: Opts::default(), render: Render::None };
+        for (pi, p) in preds.iter().chain(std::iter::once(t)).enumerate() {
+            let _ = subject::build(p, &Opts::default());
+            let got = subject::outcome_digest(&subject::build(t, &Opts::default()));
+            tie_runs += 1;
+            col.eval(Some(crate::util::fnv(format!("tie{}-{}", ti, pi).as_bytes())));
+            if expect.get(&key) != Some(&got) {
+                col.violation((0, (ti * 16 + pi) as u64), "C14/history-dependent-build".into(), format!("{:?} (two or more masks tie for the lowest documented penalty) built right after {:?} differs from its build in a pristine process", String::from_utf8_lossy(t), String::from_utf8_lossy(p)), json!({"kind": "tie-after", "input_hex": crate::util::hex(t), "previous_hex": crate::util::hex(p)}));
+            }
+        }
+    }
+    col.space(json!({"name": "(a') tie inputs after predecessors", "cases": tie_runs, "tie_inputs": ties.len(), "predecessors": preds.len(), "what": "inputs whose documented selection is a tie (found with R), each built right after each of up to 8 predecessors with different documented winners and after itself; result = pristine process", "exhaustive": true}));
     let states: Mutex<HashSet<(usize, Opts)>> = Mutex::new(HashSet::new());
     let transitions = AtomicU64::new(0);
     let mut nseq = 0u64;
